@@ -251,6 +251,15 @@ func (e *Env) Finish() {
 	e.mu.Lock()
 	defer e.mu.Unlock()
 	e.res.Completed = true
+	if e.res.Violations == nil {
+		e.res.Violations = []Violation{}
+	}
+	if e.res.Samples == nil {
+		e.res.Samples = []any{}
+	}
+	if e.res.Inconclusive == nil {
+		e.res.Inconclusive = []string{}
+	}
 	e.res.Nontrivial = int64(len(e.nt))
 	sort.Slice(e.res.Violations, func(i, j int) bool { return e.res.Violations[i].Sig < e.res.Violations[j].Sig })
 	if e.outPath == "" {
